@@ -142,6 +142,7 @@ type model struct {
 	h       [2]mval
 	capHint int // capacity the implementation ended up with for the target slice of the current op (-1: none)
 	df      defects
+	touched bool // the current op got as far as converting a value for an element / resizing
 }
 
 // isLive: does the registered reference c still denote the current element location cur?
@@ -851,6 +852,7 @@ func (m *model) conv(v mval, dst reflect.Value) error {
 
 // assign performs `parent[key] = v` on the element location dst of a reflect container.
 func (m *model) assign(parent *mref, key string, dst reflect.Value, v mval) {
+	m.touched = true
 	tmp := newVar(dst)
 	if err := m.conv(v, tmp); err != nil {
 		if m.df.ptrAllocOnFail && dst.Kind() == reflect.Ptr && dst.IsNil() {
@@ -866,6 +868,7 @@ func (m *model) assign(parent *mref, key string, dst reflect.Value, v mval) {
 // growth and shrinking of slices
 
 func (m *model) grow(r *mref, size int) {
+	m.touched = true
 	l := r.loc
 	if size > 1<<20 {
 		skip("huge slice")
@@ -905,6 +908,7 @@ func (m *model) grow(r *mref, size int) {
 }
 
 func (m *model) shrink(r *mref, size int) {
+	m.touched = true
 	l := r.loc
 	old := l.Len()
 	zero := reflect.Zero(l.Type().Elem())
@@ -1455,6 +1459,7 @@ func (m *model) full(v mval, probes []string, noJSON bool) string {
 	b.WriteString("|s=" + view)
 	b.WriteString("|p=")
 	for _, p := range probes {
+		_, isIdx := parseIdx(p)
 		h := "0"
 		func() {
 			defer func() {
@@ -1470,6 +1475,9 @@ func (m *model) full(v mval, probes []string, noJSON bool) string {
 			}
 		}()
 		b.WriteString(h + h)
+		if isIdx {
+			b.WriteString(h + h) // integer-like probes are asked as a number and as a string
+		}
 	}
 	if m.isArrayLike(r) {
 		b.WriteString("|l=" + strconv.Itoa(r.loc.Len()))
